@@ -118,7 +118,7 @@ func MimeDump(t any, accept string) (data []byte, mimeType string, format uint8,
 
 	// Serialize and return.
 	data, err = dumpWithoutIdentifier(t, format, "")
-	return data, mimeType, format, err
+	return data, FormatToMimeType[format], format, err
 }
 
 // FormatFromAccept returns the format for the given accept definition.
